@@ -219,6 +219,12 @@ impl Operation {
             .find(|p| p.name.is_empty())
         {
             empty_param.name = name.into();
+        } else {
+            /* the handler doesn't take this param of the route, but every `{param}` of the path has to be declared */
+            let mut param = Parameter::in_path(crate::string());
+            param.name = name.into();
+            let position = self.parameters.iter().rposition(|p| p.is_path()).map(|i| i + 1).unwrap_or(0);
+            self.parameters.insert(position, param);
         }
     }
 
